@@ -14,11 +14,11 @@ applies=false; suite=false; demo_fails=false; demo_passes=false
 if git apply $PATCH; then applies=true; fi
 if $applies; then
   if cargo test --workspace --no-fail-fast --offline > $OUT/$ID$SFX.suite.log 2>&1; then suite=true; fi
-  cp $DEMO $crate/tests/seed_demo.rs
+  mkdir -p $crate/tests; cp $DEMO $crate/tests/seed_demo.rs
   if ! timeout 600 cargo test --offline -p $crate $feats --test seed_demo > $OUT/$ID$SFX.demo_with.log 2>&1; then demo_fails=true; fi
   rm -f $crate/tests/seed_demo.rs
   git apply -R $PATCH
-  cp $DEMO $crate/tests/seed_demo.rs
+  mkdir -p $crate/tests; cp $DEMO $crate/tests/seed_demo.rs
   if timeout 600 cargo test --offline -p $crate $feats --test seed_demo > $OUT/$ID$SFX.demo_without.log 2>&1; then demo_passes=true; fi
   rm -f $crate/tests/seed_demo.rs
 fi
